@@ -32,10 +32,13 @@ def run_one(patch, ids, tier):
         print("refusing: /repo has uncommitted changes")
         sys.exit(2)
     patch = os.path.abspath(patch)
+    label = os.path.basename(patch)
+    if label == "patch.diff":
+        label = os.path.basename(os.path.dirname(patch))
     r = sh(["git", "-C", REPO, "apply", patch])
     if r.returncode != 0:
         print("patch does not apply: %s\n%s" % (patch, r.stdout))
-        return [{"patch": os.path.basename(patch), "error": "does not apply"}]
+        return [{"patch": label, "error": "does not apply"}]
     try:
         for pid in ids:
             t0 = time.time()
@@ -47,7 +50,7 @@ def run_one(patch, ids, tier):
                 if l.startswith("VIOLATION "):
                     detail = " | ".join(x.strip() for x in lines[i + 1:i + 3])[:400]
                     break
-            rec = {"patch": os.path.basename(patch), "check": pid, "tier": tier, "exit": r.returncode, "detected": r.returncode == 1 and bool(viol), "violations": len(viol), "first": detail, "wall_s": round(time.time() - t0, 1)}
+            rec = {"patch": label, "check": pid, "tier": tier, "exit": r.returncode, "detected": r.returncode == 1 and bool(viol), "violations": len(viol), "first": detail, "wall_s": round(time.time() - t0, 1)}
             out.append(rec)
             print(json.dumps(rec), flush=True)
             if r.returncode not in (0, 1):
